@@ -34,7 +34,7 @@ def _norm_bool(res):
             anysym = True
             break
     if not anysym:
-        return _np.array(res.tolist(), dtype=bool).reshape(res.shape)
+        return _np.array(res.tolist(), dtype=bool).reshape(res.shape).view(CArr)
     out = _np.empty(res.shape, dtype=object)
     for idx in _np.ndindex(res.shape):
         x = res[idx]
@@ -44,6 +44,38 @@ def _norm_bool(res):
 
 def _is_symbolic_obj(a):
     return isinstance(a, _np.ndarray) and a.dtype == object
+
+
+class CArr(_np.ndarray):
+    """concrete (int/bool/float) ndarray that accepts symbolic boolean masks / constant proxies as indices"""
+
+    def __getitem__(self, key):
+        return _np.ndarray.__getitem__(self, _concretize_key(key))
+
+    def __setitem__(self, key, value):
+        key = _concretize_key(key)
+        if isinstance(value, SR):
+            if not value.is_const():
+                raise S.SymbolicLeak("symbolic value stored into a concrete array")
+            value = builtins.int(value.cval()) if self.dtype.kind in "iu" else builtins.float(value.cval())
+        elif isinstance(value, _np.ndarray) and value.dtype == object:
+            conv = _np.empty(value.shape, dtype=self.dtype)
+            for idx in _np.ndindex(value.shape):
+                v = value[idx]
+                if isinstance(v, SR):
+                    if not v.is_const():
+                        raise S.SymbolicLeak("symbolic value stored into a concrete array")
+                    v = builtins.int(v.cval()) if self.dtype.kind in "iu" else builtins.float(v.cval())
+                elif isinstance(v, SB):
+                    v = builtins.bool(v)
+                conv[idx] = v
+            value = conv
+        _np.ndarray.__setitem__(self, key, value)
+
+
+def carr(a):
+    a = _np.asarray(a)
+    return a.view(CArr) if a.dtype != object else a
 
 
 class SArr(_np.ndarray):
@@ -107,7 +139,7 @@ class SArr(_np.ndarray):
             out = _np.empty(self.shape, dtype=dt)
             for idx in _np.ndindex(self.shape):
                 out[idx] = builtins.int(self[idx])
-            return out
+            return out.view(CArr)
         if dt.kind == "b":
             out = _np.empty(self.shape, dtype=bool)
             for idx in _np.ndindex(self.shape):
@@ -364,7 +396,7 @@ def _all_int(values):
 def f_zeros(shape, dtype=float, **kw):
     dtype = _dt(dtype)
     if _is_intlike_dtype(dtype):
-        return _np.zeros(shape, dtype=dtype)
+        return _np.zeros(shape, dtype=dtype).view(CArr)
     out = _np.empty(shape, dtype=object)
     z = S.ZERO() if _np.dtype(dtype).kind != "c" else None
     for idx in _np.ndindex(out.shape):
@@ -377,7 +409,7 @@ def f_zeros(shape, dtype=float, **kw):
 def f_ones(shape, dtype=float, **kw):
     dtype = _dt(dtype)
     if _is_intlike_dtype(dtype):
-        return _np.ones(shape, dtype=dtype)
+        return _np.ones(shape, dtype=dtype).view(CArr)
     return f_zeros(shape, dtype) + 1
 
 
@@ -416,7 +448,7 @@ def f_ones_like(a, dtype=None, **kw):
     return f_zeros_like(a, dtype) + 1
 
 
-def f_array(obj, dtype=None, copy=True, **kw):
+def _f_array(obj, dtype=None, copy=True, **kw):
     dtype = _dt(dtype)
     if isinstance(obj, SArr):
         r = obj.copy() if copy else obj
@@ -459,6 +491,13 @@ def f_array(obj, dtype=None, copy=True, **kw):
     return r
 
 
+def f_array(obj, dtype=None, copy=True, **kw):
+    r = _f_array(obj, dtype=dtype, copy=copy, **kw)
+    if type(r) is _np.ndarray and r.dtype != object and r.dtype.kind in "iub":
+        r = r.view(CArr)
+    return r
+
+
 def _infer_dt(r):
     for x in r.ravel():
         if isinstance(x, SC):
@@ -478,7 +517,7 @@ def f_arange(*args, **kw):
         raise S.SymbolicLeak("arange with symbolic bounds")
     r = _np.arange(*args, **kw)
     if r.dtype.kind in "iu":
-        return r
+        return r.view(CArr)
     return sarr(r, r.dtype)
 
 
